@@ -31,9 +31,23 @@
 //	    `x := h(a)`, that local is renamed to `x` instead.  `return h(a)` is replaced by the body (its `return E` stays).
 //	I6  any helper with results may be inlined in TAIL position `return h(a)` when the caller's result count equals the
 //	    helper's: every `return E` of the helper becomes a `return E` of the caller.
-//	I7  not inlined: variadic or generic helpers, named results, recursion, `defer`/`go`/labels/`goto` in the body, a
-//	    closure in the body that mentions a parameter which I1 would bind, method helpers whose receiver expression
-//	    at the call is not an identifier.
+//	I7  not inlined: variadic helpers, generic helpers called without explicit type arguments (I10), named results,
+//	    recursion, `defer`/`go`/labels/`goto` in the body, a closure in the body that mentions a parameter which I1
+//	    would bind, method helpers whose receiver expression at the call is not an identifier.
+//	I9  CONTINUATION: `x, y := h(a); REST` (also `x := h(a)`, `x, y = h(a)`) with a helper that returns from several
+//	    places (early returns out of a search loop, …), where REST — the statements that follow the call in its
+//	    statement list — ends in `return` or `panic(…)`: the call is replaced by the helper's body in which every
+//	    `return E1, E2` has become `x, y := E1, E2` followed by a copy of REST.  Whatever return the helper leaves by,
+//	    the caller continues with REST and never comes back (REST ends the function), so running REST at the place
+//	    of the `return` is the same execution.  Conditions: REST has no `defer`, no label / `goto` and no `break` /
+//	    `continue` that would leave it (inside the helper's loop they would bind to that loop); with `:=` the
+//	    declared names occur nowhere in the function but on the left of the call and in REST (they are new
+//	    variables, so declaring them in an inner block loses nothing) — the variables have the helper's result
+//	    types.
+//	I10 a generic helper called with explicit type arguments `h[T1, T2](a)` (as many as type parameters) is the helper
+//	    with the type arguments substituted for the type parameters — that is how the language defines
+//	    instantiation; the instance is then inlined by the rules above.  Not when a type parameter's name is
+//	    also a parameter / local of the helper.
 //
 // Helpers are processed to a fixpoint (a helper may call a helper); a helper none of whose calls remains is removed
 // from the declarations (so the write-set and API tables do not see it either).
@@ -182,6 +196,7 @@ type helper struct {
 	nres     int
 	kind     helperKind
 	assigned map[string]bool // parameters the body assigns to / takes the address of
+	tparams  []string        // I10: type parameters
 }
 
 func funcKey(d *ast.FuncDecl) string {
@@ -224,8 +239,19 @@ func scanBody(list []ast.Stmt) (returns int, bad bool) {
 
 func classifyHelper(d *ast.FuncDecl) *helper {
 	h := &helper{name: funcKey(d), decl: d, assigned: map[string]bool{}}
-	if d.Body == nil || d.Type.TypeParams != nil {
+	if d.Body == nil {
 		return nil
+	}
+	if d.Type.TypeParams != nil {
+		// I10: only plain functions; the helper is used through its instances (instanceOf)
+		if d.Recv != nil {
+			return nil
+		}
+		for _, f := range d.Type.TypeParams.List {
+			for _, n := range f.Names {
+				h.tparams = append(h.tparams, n.Name)
+			}
+		}
 	}
 	if d.Recv != nil {
 		if len(d.Recv.List) != 1 || len(d.Recv.List[0].Names) != 1 {
@@ -464,6 +490,7 @@ type inliner struct {
 	failed  map[string]bool    // helpers with a call that could not be inlined
 	shadow  map[string]bool    // names the function being rewritten declares itself (parameters, locals): a call of such a name is not a helper call
 	log     []string
+	cur     *ast.FuncDecl // the function whose body is being rewritten
 }
 
 // instantiate copies the helper's body for one call: parameters substituted or bound (I1), locals renamed (I2).
@@ -534,12 +561,98 @@ func (in *inliner) instantiate(h *helper, recv ast.Expr, args []ast.Expr, keep, 
 	return pre, body, true
 }
 
+// simpleType: a type expression built from (qualified) names by `*`, `[]`, `[n]`, `map[K]V`
+func simpleType(e ast.Expr) bool {
+	switch t := e.(type) {
+	case *ast.Ident:
+		return true
+	case *ast.SelectorExpr:
+		_, ok := t.X.(*ast.Ident)
+		return ok
+	case *ast.StarExpr:
+		return simpleType(t.X)
+	case *ast.ArrayType:
+		if t.Len != nil {
+			if _, lit := t.Len.(*ast.BasicLit); !lit {
+				return false
+			}
+		}
+		return simpleType(t.Elt)
+	case *ast.MapType:
+		return simpleType(t.Key) && simpleType(t.Value)
+	}
+	return false
+}
+
+// instanceOf implements I10: the helper with the type arguments substituted for its type parameters.
+func (in *inliner) instanceOf(h *helper, targs []ast.Expr) *helper {
+	if len(targs) != len(h.tparams) {
+		return nil
+	}
+	for _, t := range targs {
+		if !simpleType(t) {
+			return nil
+		}
+	}
+	taken := map[string]bool{}
+	for _, p := range h.params {
+		taken[p] = true
+	}
+	for _, l := range declaredLocals(h.decl.Body.List) {
+		taken[l] = true
+	}
+	for i, tp := range h.tparams {
+		if taken[tp] {
+			return nil
+		}
+		// a name inside a type argument must not be captured by a parameter / local of the helper
+		bad := false
+		ast.Inspect(targs[i], func(n ast.Node) bool {
+			if id, ok := n.(*ast.Ident); ok && taken[id.Name] {
+				bad = true
+			}
+			return true
+		})
+		if bad {
+			return nil
+		}
+	}
+	d := deepCopy(reflect.ValueOf(h.decl)).Interface().(*ast.FuncDecl)
+	d.Type.TypeParams = nil
+	subst := func(e ast.Expr) ast.Expr {
+		if id, ok := e.(*ast.Ident); ok {
+			for i, tp := range h.tparams {
+				if id.Name == tp {
+					return copyExpr(targs[i])
+				}
+			}
+		}
+		return e
+	}
+	mapExprs(reflect.ValueOf(d.Type), subst)
+	mapExprs(reflect.ValueOf(d.Body), subst)
+	return classifyHelper(d)
+}
+
 // helperOfCall resolves a call to a helper.
 func (in *inliner) helperOfCall(c *ast.CallExpr, recvTypes map[string]string) (*helper, ast.Expr) {
 	switch f := c.Fun.(type) {
 	case *ast.Ident:
-		if h := in.helpers[f.Name]; h != nil && h.recvName == "" && !in.shadow[f.Name] {
+		if h := in.helpers[f.Name]; h != nil && h.recvName == "" && len(h.tparams) == 0 && !in.shadow[f.Name] {
 			return h, nil
+		}
+	case *ast.IndexExpr:
+		// I10: h[T](…)
+		if id, ok := f.X.(*ast.Ident); ok {
+			if h := in.helpers[id.Name]; h != nil && h.recvName == "" && len(h.tparams) == 1 {
+				return in.instanceOf(h, []ast.Expr{f.Index}), nil
+			}
+		}
+	case *ast.IndexListExpr:
+		if id, ok := f.X.(*ast.Ident); ok {
+			if h := in.helpers[id.Name]; h != nil && h.recvName == "" && len(h.tparams) > 1 {
+				return in.instanceOf(h, f.Indices), nil
+			}
 		}
 	case *ast.SelectorExpr:
 		// a method helper: any receiver type that has a helper of that name (there is no type information; the name of an
@@ -631,6 +744,165 @@ func (in *inliner) inlineExprHelpers(st *ast.Stmt) {
 	})
 }
 
+// endsFunction: the statement list ends in `return` or `panic(…)`.
+func endsFunction(list []ast.Stmt) bool {
+	if len(list) == 0 {
+		return false
+	}
+	switch s := list[len(list)-1].(type) {
+	case *ast.ReturnStmt:
+		return true
+	case *ast.ExprStmt:
+		if c := callOf(s.X); c != nil {
+			id, ok := c.Fun.(*ast.Ident)
+			return ok && id.Name == "panic"
+		}
+	}
+	return false
+}
+
+// leaves reports a `defer`, a label, a `goto`, or a `break` / `continue` / `fallthrough` that is not inside a loop /
+// switch / select of the list itself (closures are not entered: their statements are their own).
+func leaves(list []ast.Stmt) bool {
+	found := false
+	var walk func(n ast.Node, inLoop, inSwitch bool)
+	walk = func(n ast.Node, inLoop, inSwitch bool) {
+		ast.Inspect(n, func(m ast.Node) bool {
+			if m == n {
+				return true
+			}
+			switch x := m.(type) {
+			case *ast.FuncLit:
+				return false
+			case *ast.DeferStmt, *ast.LabeledStmt:
+				found = true
+			case *ast.ForStmt:
+				walk(x.Body, true, inSwitch)
+				return false
+			case *ast.RangeStmt:
+				walk(x.Body, true, inSwitch)
+				return false
+			case *ast.SwitchStmt:
+				walk(x.Body, inLoop, true)
+				return false
+			case *ast.TypeSwitchStmt:
+				walk(x.Body, inLoop, true)
+				return false
+			case *ast.SelectStmt:
+				walk(x.Body, inLoop, true)
+				return false
+			case *ast.BranchStmt:
+				switch {
+				case x.Label != nil || x.Tok == token.GOTO:
+					found = true
+				case x.Tok == token.CONTINUE && !inLoop:
+					found = true
+				case x.Tok == token.BREAK && !inLoop && !inSwitch:
+					found = true
+				case x.Tok == token.FALLTHROUGH && !inSwitch:
+					found = true
+				}
+			}
+			return true
+		})
+	}
+	walk(&ast.BlockStmt{List: list}, false, false)
+	return found
+}
+
+// replaceReturns replaces every `return` of a statement list (closures excluded) by the statements f gives.
+func replaceReturns(list []ast.Stmt, f func(*ast.ReturnStmt) []ast.Stmt) []ast.Stmt {
+	var out []ast.Stmt
+	var nested func(st ast.Stmt)
+	nested = func(st ast.Stmt) {
+		switch s := st.(type) {
+		case *ast.BlockStmt:
+			s.List = replaceReturns(s.List, f)
+		case *ast.IfStmt:
+			s.Body.List = replaceReturns(s.Body.List, f)
+			if s.Else != nil {
+				nested(s.Else)
+			}
+		case *ast.ForStmt:
+			s.Body.List = replaceReturns(s.Body.List, f)
+		case *ast.RangeStmt:
+			s.Body.List = replaceReturns(s.Body.List, f)
+		case *ast.SwitchStmt:
+			for _, c := range s.Body.List {
+				cc := c.(*ast.CaseClause)
+				cc.Body = replaceReturns(cc.Body, f)
+			}
+		case *ast.TypeSwitchStmt:
+			for _, c := range s.Body.List {
+				cc := c.(*ast.CaseClause)
+				cc.Body = replaceReturns(cc.Body, f)
+			}
+		case *ast.SelectStmt:
+			for _, c := range s.Body.List {
+				cc := c.(*ast.CommClause)
+				cc.Body = replaceReturns(cc.Body, f)
+			}
+		}
+	}
+	for _, st := range list {
+		if r, ok := st.(*ast.ReturnStmt); ok {
+			out = append(out, f(r)...)
+			continue
+		}
+		nested(st)
+		out = append(out, st)
+	}
+	return out
+}
+
+// continuation implements I9 for the call statement s (`x, y := h(a)`) followed by `rest` in its statement list; it returns
+// the statements that replace s and rest.
+func (in *inliner) continuation(h *helper, recv ast.Expr, args []ast.Expr, s *ast.AssignStmt, rest []ast.Stmt) ([]ast.Stmt, bool) {
+	if s.Tok != token.DEFINE && s.Tok != token.ASSIGN {
+		return nil, false
+	}
+	if !endsFunction(rest) || leaves(rest) {
+		return nil, false
+	}
+	for _, l := range s.Lhs {
+		id, ok := l.(*ast.Ident)
+		if !ok {
+			return nil, false
+		}
+		if s.Tok == token.DEFINE && id.Name != "_" {
+			// a new variable: the name occurs nowhere in the function but on the left of the call and in REST
+			if in.cur == nil || identOccurs(s.Rhs[0], id.Name) > 0 ||
+				identOccurs(in.cur, id.Name) != identOccurs(s, id.Name)+identOccurs(&ast.BlockStmt{List: rest}, id.Name) {
+				return nil, false
+			}
+		}
+	}
+	// every return of the helper gives as many values as there are variables
+	okShape := true
+	replaceReturns(copyStmts(h.decl.Body.List), func(r *ast.ReturnStmt) []ast.Stmt {
+		if len(r.Results) != len(s.Lhs) {
+			okShape = false
+		}
+		return []ast.Stmt{r}
+	})
+	if !okShape {
+		return nil, false
+	}
+	pre, body, ok := in.instantiate(h, recv, args, "", "")
+	if !ok {
+		return nil, false
+	}
+	body = replaceReturns(body, func(r *ast.ReturnStmt) []ast.Stmt {
+		lhs := make([]ast.Expr, len(s.Lhs))
+		for i, l := range s.Lhs {
+			lhs[i] = copyExpr(l)
+		}
+		out := []ast.Stmt{&ast.AssignStmt{Lhs: lhs, Tok: s.Tok, TokPos: r.Pos(), Rhs: r.Results}}
+		return append(out, copyStmts(rest)...)
+	})
+	return append(pre, body...), true
+}
+
 func callOf(e ast.Expr) *ast.CallExpr {
 	c, _ := e.(*ast.CallExpr)
 	return c
@@ -639,8 +911,19 @@ func callOf(e ast.Expr) *ast.CallExpr {
 // rewriteList inlines helper calls in a statement list; nres is the result count of the enclosing function.
 func (in *inliner) rewriteList(list []ast.Stmt, nres int) []ast.Stmt {
 	var out []ast.Stmt
-	for _, st := range list {
+	for i, st := range list {
 		done := false
+		// I9: `x, y := h(a); REST` with a helper that returns from several places
+		if s, ok := st.(*ast.AssignStmt); ok && len(s.Rhs) == 1 {
+			if c := callOf(s.Rhs[0]); c != nil {
+				if h, recv := in.helperOfCall(c, nil); h != nil && h.kind == hkTail && len(s.Lhs) == h.nres {
+					if repl, ok := in.continuation(h, recv, c.Args, s, list[i+1:]); ok {
+						in.log = append(in.log, "continuation helper "+h.name)
+						return append(out, in.rewriteList(repl, nres)...)
+					}
+				}
+			}
+		}
 		// I8: `if h(a) {…}` / `if !h(a) {…}` with a straight helper (no init): the call is evaluated first, into a fresh local
 		if ifs, ok := st.(*ast.IfStmt); ok && ifs.Init == nil {
 			cond := ifs.Cond
@@ -895,6 +1178,7 @@ func inlineHelpers(files []*ast.File) []string {
 						in.shadow[n.Name] = true
 					}
 				}
+				in.cur = fd
 				fd.Body.List = in.rewriteList(fd.Body.List, resultCount(fd))
 			}
 		}
